@@ -13,6 +13,9 @@ class GzipMiddleware(Middleware):
 
     def request(self, next, request):
         resp = next()
+        if not hasattr(resp, 'content_encoding'):
+            # e.g., HTTPExceptions, which are bare BaseResponses
+            return resp
         # TODO: shortcut redirects/304s/responses without content?
         resp.vary.add('Accept-Encoding')
         if resp.content_encoding or not request.accept_encodings['gzip']:
